@@ -300,6 +300,51 @@ for k in range(1, maxtime + 1):
 sys.exit(1 if bad else 0)
 '''
 
+# ---- a stated exogenous path that is not finite in some period k >= 1 (concrete: the value comes from a float literal that overflows) -------------------
+
+NONFINITE_USES = {
+    'unused':       "x = 0.5*x + 1.\nexogenous\nG = %s\nMaxTime = 3",
+    'lagged-only':  "x = 0.5*x + 1.\nLAG_G = G(k-1)\nexogenous\nG = %s\nMaxTime = 3",
+    'simultaneous': "x = 0.5*x + G\nexogenous\nG = %s\nMaxTime = 3",
+    'decorative':   "x = 0.5*x + 1.\nd = 2*G\nexogenous\nG = %s\nMaxTime = 3",
+    'beyond-horizon': "x = 0.5*x + G\nexogenous\nG = [1., 1., 1., 1., %s]\nMaxTime = 3",      # never part of the results: must solve
+}
+NONFINITE_VALUES = ('1e400', '-1e400', '1e400 - 1e400')
+
+
+def nonfinite_exogenous_outcomes():
+    """'every reported value is a finite number': an exogenous path whose value in a period k >= 1 is inf / -inf / NaN - used by nothing, by a lag only, by a
+    simultaneous or by a decorative equation - must not come back as a solved series holding that value (refused, or solved with finite values only)."""
+    out = []
+    for use, text in sorted(NONFINITE_USES.items()):
+        for val in NONFINITE_VALUES:
+            for pos in ((1, 3) if use != 'beyond-horizon' else (4,)):
+                path = val if use == 'beyond-horizon' else '[' + ', '.join(val if i == pos else '1.' for i in range(4)) + ']'
+                for reduce in (True, False):
+                    es = EquationSolver(text % path, run_equation_reduction=reduce)
+                    try:
+                        es.SolveEquation()
+                    except ValueError as e:
+                        outcome = 'refused'
+                    except Exception as e:
+                        outcome = 'crash:' + type(e).__name__
+                    else:
+                        bad = sorted(v for v in es.TimeSeries for x in es.TimeSeries[v] if isinstance(x, float) and (x != x or abs(x) == float('inf')))
+                        outcome = 'solved' if not bad else 'solved with non-finite values in %s' % (sorted(set(bad)),)
+                    ok = outcome == 'solved' if use == 'beyond-horizon' else outcome in ('refused', 'solved')
+                    out.append((use, val, pos, reduce, outcome, ok))
+    return out
+
+
+REPLAY_NONFINITE = '''
+import sys
+from vf.props.c02 import nonfinite_exogenous_outcomes
+bad = [r for r in nonfinite_exogenous_outcomes() if r[0] == %(use)r and not r[5]]
+for r in bad: print('exogenous path with %%s in period %%d (%%s, reduction %%s): %%s' %% (r[1], r[2], r[0], r[3], r[4]))
+sys.exit(1 if bad else 0)
+'''
+
+
 # ---- FP mode: non-finite values are never reported as solved ----------------------------------------------------------
 
 FP_BLOCKS = {
@@ -519,4 +564,15 @@ def run(tier, seed):
         chk.extra.setdefault('case_wall_s', {})[what] = round(o['wall'] + o['solver_s'], 1)
         chk.sample({'harness': what, 'paths': o['paths'], 'outcomes': o['outcomes'], 'qf_fp_queries': o['queries'], 'sat_paths': o['sat_paths']}, cap=20)
     chk.exhaustive = True
+    nf = nonfinite_exogenous_outcomes()
+    chk.bounds['non-finite exogenous path'] = ('%d concrete runs: an exogenous path holding %r in period 1 or 3 (or beyond the horizon), used by %r, reduction on/off: refused or solved with '
+                                              'finite values only (concrete: the value is a float literal that overflows)' % (len(nf), NONFINITE_VALUES, sorted(NONFINITE_USES)))
+    chk.count('nonfinite_exogenous_concrete_cases', len(nf))
+    for use in sorted(NONFINITE_USES):
+        rs = [r for r in nf if r[0] == use]
+        bad = [r for r in rs if not r[5]]
+        what = 'exogenous path that is not finite in a period k >= 1 (%s): never reported as a solved value' % use
+        chk.ob('sat' if bad else 'unsat', what, distinct=('nonfinite-exogenous', use))
+        if bad:
+            chk.violation('nonfinite-exogenous:%s' % use, what + ': ' + '; '.join('%s at k=%d reduction %s -> %s' % (r[1], r[2], r[3], r[4]) for r in bad[:3]), REPLAY_NONFINITE % dict(use=use))
     return chk.finish()
